@@ -554,7 +554,8 @@ pub fn try_(ops: Ops, pattern: bool, env: &mut Uiua) -> UiuaResult {
                 if !pattern {
                     err.meta.is_case = false;
                 }
-                _ = env.remove_n(try_args.saturating_sub(f_sig.args()), try_args)?;
+                let remaining = try_args.saturating_sub(f_sig.args());
+                _ = env.remove_n(remaining, remaining)?;
                 return Err(err);
             }
             if takes_error {
